@@ -2,6 +2,7 @@ package sym
 
 import (
 	"fmt"
+	"os"
 	"path/filepath"
 	"go/types"
 	"strconv"
@@ -395,6 +396,13 @@ func (ex *Exec) assert(s *State, id string, cond *Term) {
 		return
 	}
 	neg := ex.Ctx.BNot(cond)
+	if os.Getenv("SYMGO_DEBUG") == "2" {
+		str := cond.String()
+		if len(str) > 1500 {
+			str = str[:1500]
+		}
+		fmt.Fprintf(os.Stderr, "assert %s: %s\n", id, str)
+	}
 	q0 := ex.Solver.TimeSpent
 	var r Result
 	if qm := ex.quickCounterexample(s.PC, cond, 3); qm != nil {
